@@ -3,6 +3,7 @@
 from __future__ import annotations
 
 import ast
+import re
 
 from ..engine.cfg import CFG, walk_fragment
 from ..engine.match import dotted, norm, func_body_stmts, string_value
@@ -706,9 +707,102 @@ def flag(run, P, rule):
            why="at most one assignment per flag and phase")
 
 
+def _membership_checkers(f, phases, errs):
+    """nested helpers `def check(target, ...): if target not in <phases>: <errors>.append(...)`"""
+    out = {}
+    for name, g_ in f.nested.items():
+        body = [s_ for s_ in g_.node.body
+                if not (isinstance(s_, ast.Expr) and isinstance(s_.value, ast.Constant))]
+        if len(body) == 1 and isinstance(body[0], ast.If) and g_.params \
+                and norm(body[0].test) == f"{g_.params[0]} not in {phases}" \
+                and f"{errs}.append(" in ast.unparse(body[0]) and not body[0].orelse:
+            out[name] = g_
+    return out
+
+
+def _switch_by_helper(run, P, f, vc, checkers):
+    """verify_switch_phases with the three membership tests made by one nested helper"""
+    from .util import path_conditions
+    phases = f.params[0]
+    code = vc.params[0]
+    calls = [(x, norm(x.args[0])) for x in ast.walk(f.node) if isinstance(x, ast.Call)
+             and isinstance(x.func, ast.Name) and x.func.id in checkers and x.args]
+
+    def stmt_of(x):
+        return next((s_ for s_ in ast.walk(f.node) if isinstance(s_, ast.Expr) and s_.value is x), None)
+    loops = _loop_over_phases(f.node, phases)
+    if not loops:
+        raise AnalysisError("verify_switch_phases: loop over the phases not found")
+    lp, var = loops[0]
+    pv = var if isinstance(lp.target, ast.Name) else (
+        lp.target.elts[1].id if isinstance(lp.target, ast.Tuple) else var)
+    inner = [n for n in lp.body if isinstance(n, ast.For) and dotted(n.iter) == f"{pv}.statements"]
+    # (a) every SwitchPhase
+    ok_sw = False
+    if inner:
+        iv = inner[0].target.id
+        for x, a0 in calls:
+            st_ = stmt_of(x)
+            if a0 == f"{iv}.next_phase" and st_ is not None and any(y is st_ for y in ast.walk(inner[0])):
+                conds = path_conditions(f.node, st_)
+                others = {(t, pol) for t, pol in conds
+                          if not (t.startswith(f"isinstance({iv}, SwitchPhase") and pol)}
+                others = {(t, pol) for t, pol in others if any(y is st_ for s2 in ast.walk(inner[0])
+                                                               if isinstance(s2, ast.If) and norm(s2.test).lstrip("not ").startswith(t[:20])
+                                                               for y in ast.walk(s2))}
+                ok_sw = any(t.startswith(f"isinstance({iv}, SwitchPhase") and pol for t, pol in conds) \
+                    and not others
+    run.ob("C10.switch", f, inner[0] if inner else f.node, ok_sw,
+           construct="for every phase, every SwitchPhase: next_phase not in phases -> error",
+           why="a switch to a missing phase raises KeyError at run time")
+    # (b) the default successor of every phase
+    ok_d = False
+    for x, a0 in calls:
+        st_ = stmt_of(x)
+        if a0 == f"{pv}.next_phase" and st_ is not None and st_ in lp.body:
+            ok_d = True
+    run.ob("C10.switch", f, lp, ok_d,
+           construct="for every phase: its default successor not in phases -> error",
+           why="the switch at the end of every step that no statement makes: a phase whose "
+               "next_phase names no phase is accepted and the next step fails with KeyError")
+    # (c) the initial phase: handed in by verify_code and tested unless the caller gave none -
+    # where "none given" must not be a value the initial phase can have
+    handed = [k for c_ in ast.walk(vc.node) if isinstance(c_, ast.Call) and dotted(c_.func) == f.name
+              for k in c_.keywords if norm(k.value) == f"{code}.initial_phase"]
+    if not handed:
+        raise AnalysisError("verify_code: the initial phase is neither tested nor handed to "
+                            "verify_switch_phases under a keyword")
+    pname = handed[0].arg
+    site = None
+    ok_i = False
+    for x, a0 in calls:
+        st_ = stmt_of(x)
+        if a0 == pname and st_ is not None:
+            site = x
+            conds = path_conditions(f.node, st_)
+            if not conds:
+                ok_i = True
+            for t, pol in conds:
+                m_ = re.match(rf"^{pname} is not (\w+)$", t) if pol else re.match(rf"^{pname} is (\w+)$", t)
+                if m_ is None:
+                    raise AnalysisError(f"verify_switch_phases: the initial phase is tested under {t[:50]}")
+                sentinel = m_.group(1)
+                v_ = f.module.assigns.get(sentinel) if hasattr(f.module, "assigns") else None
+                ok_i = isinstance(v_, ast.Call) and dotted(v_.func) == "object" and not v_.args
+    run.ob("C10.switch", f, site if site is not None else f.node, ok_i,
+           construct="the initial phase not in phases -> error (skipped only for a private 'not given' "
+                     "object, never for a value the initial phase can have)",
+           why="the first step indexes the phase map with it; None is what a method without an "
+               "initial phase has, so 'None means not given' accepts exactly that method")
+
+
 def _switch(run, P):
     f = P.func(f"{MOD}.verify_switch_phases")
     phases = f.params[0]
+    checkers = _membership_checkers(f, phases, f.arg(1))
+    if checkers:
+        run.do(_switch_by_helper, run, P, f, P.func(f"{MOD}.verify_code"), checkers)
+        return
     loops = _loop_over_phases(f.node, phases)
     ok = False
     site = f.node
